@@ -165,12 +165,43 @@ func suiteChunks(c M) M {
 				rem -= s
 			}
 		}
+		script := append([]int(nil), f.script...)
 		o, _ := parseFile(f)
 		m := M{"sizes": sizes, "class": o.Class, "same": o == whole, "closes": f.closes}
 		if o != whole {
 			m["obs"] = o
 		}
 		res = append(res, m)
+		// the same script with the last data read delivered TOGETHER with io.EOF (allowed by io.Reader)
+		if len(src) > 0 {
+			f2 := &scriptFile{data: append([]byte(nil), src...), name: name}
+			rem := len(src)
+			for _, s := range script {
+				take := s
+				if take > 4096 {
+					take = 4096
+				}
+				if take >= rem && s >= 0 {
+					f2.script = append(f2.script, -3-rem)
+					rem = 0
+					break
+				}
+				f2.script = append(f2.script, s)
+				rem -= take
+			}
+			if rem > 0 && rem <= 4096 {
+				f2.script = append(f2.script, -3-rem)
+				rem = 0
+			}
+			if rem == 0 {
+				o2, _ := parseFile(f2)
+				m2 := M{"sizes": append(append([]int(nil), sizes...), -1), "class": o2.Class, "same": o2 == whole, "closes": f2.closes}
+				if o2 != whole {
+					m2["obs"] = o2
+				}
+				res = append(res, m2)
+			}
+		}
 	}
 	r["parts"] = res
 	return r
